@@ -290,6 +290,16 @@ impl Prop for EngineSpeed {
     fn check(&self, c: &EngineCase) -> Result<Report, Failure> {
         let (mut engine, _info) = crate::engine_case::build_engine(&c.voice)?;
         engine.condition.set_speed(c.speed);
+        // a quarter of the cases (chosen by the utterance length): the rate was requested BEFORE the
+        // condition (re)loads the voice set - load_model takes rate, frame period, thresholds from
+        // the voices and leaves the caller's settings alone
+        let speed_before_load = c.labels.len() % 4 == 2;
+        if speed_before_load {
+            let voices = engine.voices.clone();
+            if engine.condition.load_model(&voices).is_err() {
+                fail!("load_model", "Condition::load_model failed on the engine's own voices");
+            }
+        }
         let labels = match parse_lines(&c.labels) {
             Ok(l) => l,
             Err(e) => fail!("label-parse", "{}", e),
@@ -334,6 +344,7 @@ impl Prop for EngineSpeed {
         rep.nontrivial = c.speed != 1.0;
         rep.class(c.voice.class());
         rep.class_if(frames == nstates, "floor-all-ones");
+        rep.class_if(speed_before_load, "speed-set-before-load_model");
         rep.class_if(frames > 20_000, "more-than-20000-frames");
         rep.class_if(frames > 65_535, "more-than-65535-frames");
         rep.class_if(c.labels.len() % 3 == 1, "time-stamped-lines-alignment-off");
